@@ -17,6 +17,7 @@
 -/
 import Gzx.Proofs.Image2DQR
 import Gzx.Proofs.Image2DBin
+import Gzx.Proofs.Image2DGlobal
 import Gzx.Properties.C14
 import Gzx.Properties.C01Mirror
 import Gzx.Properties.C06PureRead
@@ -92,7 +93,8 @@ theorem qr_extractPureBits_rendered_exact {F : Type} (o : FOps F) (he : ExactOps
   obtain ⟨img, h1, h2, _⟩ := qr_extractPureBits_rendered o n m q reqW reqH hq hm (he.qrFloatExact _ n hs1 (by omega))
   exact ⟨img, h1, h2⟩
 
-/-- through image → luminance → binariser -/
+/-- through image → luminance → binariser: the bitmap yields a black matrix from 40x40 pixels up (local method)
+    and, below, whenever one of the pixels the global method samples is white (`WhiteSample`) -/
 theorem qr_extractPureBits_binarised {F : Type} (o : FOps F) (n : Nat) (m : Nat → Nat → Bool) (q reqW reqH : Int)
     (hq : 0 ≤ q) (hm : QRFinderFacts n m) (ho : QRFloatExact o (qrScale n n q reqW reqH) n) :
     ∃ img, renderQR n n m q reqW reqH = .ok img ∧
@@ -100,7 +102,7 @@ theorem qr_extractPureBits_binarised {F : Type} (o : FOps F) (n : Nat) (m : Nat 
       (blackMatrix img = .error .notFound ∨
         ∃ bm, blackMatrix img = .ok bm ∧
           QR.extractPureBits o bm.rdGo bm = .ok { w := n, h := n, rows := matrixRows n n m }) ∧
-      (40 ≤ img.w → 40 ≤ img.h → ∃ bm, blackMatrix img = .ok bm ∧
+      (40 ≤ img.w ∧ 40 ≤ img.h ∨ WhiteSample img → ∃ bm, blackMatrix img = .ok bm ∧
           QR.extractPureBits o bm.rdGo bm = .ok { w := n, h := n, rows := matrixRows n n m }) := by
   have hn := hm.size
   obtain ⟨img, himg, ew, eh, hshow⟩ := renderQR_shows n n m q reqW reqH hq (by omega) (by omega)
@@ -113,9 +115,11 @@ theorem qr_extractPureBits_binarised {F : Type} (o : FOps F) (n : Nat) (m : Nat 
   · rcases blackMatrix_any img hW hH with h | ⟨bm, hb, hs⟩
     · exact Or.inl h
     · exact Or.inr ⟨bm, hb, ext bm hs⟩
-  · intro h40w h40h
-    obtain ⟨bm, hb, hs⟩ := blackMatrix_local img h40w h40h
-    exact ⟨bm, hb, ext bm hs⟩
+  · rintro (⟨h40w, h40h⟩ | hwhite)
+    · obtain ⟨bm, hb, hs⟩ := blackMatrix_local img h40w h40h
+      exact ⟨bm, hb, ext bm hs⟩
+    · obtain ⟨bm, hb, hs⟩ := blackMatrix_white img hW hH hwhite
+      exact ⟨bm, hb, ext bm hs⟩
 
 /-! ## 2. the composed image round trip -/
 
@@ -185,8 +189,9 @@ def qrImageDecode {F : Type} (o : FOps F) (T : QRDec.Tables) (hint : ECI.Hint) (
     `QRCodeReader.Decode(PURE_BARCODE)` (extractPureBits with float64 `o` → `Decoder.Decode` model with the C04
     Reed-Solomon decoder):
       * returns what the bit-stream parser makes of the payload, the level, the version, the data codewords (first
-        attempt, not mirrored) whenever the image is at least 40x40 pixels;
-      * below 40 pixels on either axis the same, or the binariser's NotFound handed through — nothing else.
+        attempt, not mirrored) whenever the image is at least 40x40 pixels, and below whenever one of the pixels the
+        global histogram method samples is white (`WhiteSample`);
+      * in every case the same, or the binariser's NotFound handed through — nothing else.
     Hypotheses beyond `qr_roundtrip_bits`: margin ≥ 0; float64 accurate at the pitch the renderer chose
     (`QRFloatExact`, implied by `ExactOps o`). -/
 theorem qr_image_pure_roundtrip {F : Type} (o : FOps F) (T : QRDec.Tables) (hT : QRComp.TablesConform T) (hint : ECI.Hint)
@@ -199,6 +204,8 @@ theorem qr_image_pure_roundtrip {F : Type} (o : FOps F) (T : QRDec.Tables) (hT :
     let want : QRDec.Decoded := ⟨parsed, QRComp.toDecEC ec, v, QRRef.terminate (QRRef.dataCodewords v ec) bits, false⟩
     let n := QRRef.dimension v
     (40 ≤ outSize reqW n (2 * q) → 40 ≤ outSize reqH n (2 * q) →
+      qrImageDecode o T hint v ec mask cw q reqW reqH = .ok want) ∧
+    ((∀ img, renderQR n n (refModule v ec mask cw) q reqW reqH = .ok img → WhiteSample img) →
       qrImageDecode o T hint v ec mask cw q reqW reqH = .ok want) ∧
     (qrImageDecode o T hint v ec mask cw q reqW reqH = .ok want ∨
       qrImageDecode o T hint v ec mask cw q reqW reqH = .error (.other .notFound)) := by
@@ -219,9 +226,12 @@ theorem qr_image_pure_roundtrip {F : Type} (o : FOps F) (T : QRDec.Tables) (hT :
         QRComp.matrixOf (QRRef.refMatrix v ec mask cw) from toQR_ref v ec mask cw]
       exact hsym
     simp only [qrRead, hbm, hex, hdec]
-  refine ⟨?_, ?_⟩
+  refine ⟨?_, ?_, ?_⟩
   · intro a b
-    obtain ⟨bm, hbm, hex⟩ := hbig (by rw [ew]; exact a) (by rw [eh]; exact b)
+    obtain ⟨bm, hbm, hex⟩ := hbig (Or.inl ⟨by rw [ew]; exact a, by rw [eh]; exact b⟩)
+    exact ok_of bm hbm hex
+  · intro hwhite
+    obtain ⟨bm, hbm, hex⟩ := hbig (Or.inr (hwhite img himg))
     exact ok_of bm hbm hex
   · rcases hany with hnf | ⟨bm, hbm, hex⟩
     · right
